@@ -1,4 +1,5 @@
 import FastgoModel.Container.Members
+import FastgoModel.Proofs.FrameUncond
 /-!
 # C08 — concatenated gzip members read as one stream, or member by member
 
@@ -95,7 +96,24 @@ example : (⟨{ name := [97, 98], extra := some [1, 2, 3], mtime := 77 }, 1, [3,
 
 example : (⟨{}, 6, [0], []⟩ : Member).OK toyInflater := ⟨by simp [GzHeader.WF], toy_exact [] (by decide)⟩
 
+/-! ### no inflater hypothesis: the specification inflater
+  `Member.SpecOK`: well-formed header, and the body is a byte string the specification inflater decodes to the end to the
+  payload. `specInflater_exact_of_done` (from `inflate_prefix_stable`, the unconditional frame theorem) shows such a member
+  is `OK` for the specification inflater, so both member-sequence theorems hold with NO assumption about the inflater. -/
+def Member.SpecOK (mode : Mode) (m : Member) : Prop :=
+  m.h.WF ∧ ∃ rest st, inflate mode [] m.body = .done m.payload.toArray rest st ∧ rest.length < 8
+
+theorem Member.SpecOK.ok {mode : Mode} {m : Member} (h : m.SpecOK mode) : m.OK (specInflater mode) := by
+  obtain ⟨hw, rest, st, hd, hr⟩ := h
+  have := specInflater_exact_of_done mode m.body m.payload.toArray rest st hd hr
+  exact ⟨hw, by simpa using this⟩
+
+theorem C08_multistream_spec (mode : Mode) (ms : List Member) (hne : ms ≠ []) (hall : ∀ m ∈ ms, m.SpecOK mode) :
+    readAllMembers (specInflater mode) ms.length (fileOf ms) = some ((ms.map (·.payload)).flatten) :=
+  C08_multistream (specInflater mode) ms hne (fun m hm => (hall m hm).ok)
+
 end Fastgo.Container
 
 #print axioms Fastgo.Container.C08_multistream
+#print axioms Fastgo.Container.C08_multistream_spec
 #print axioms Fastgo.Container.C08_member_by_member
